@@ -22,7 +22,7 @@ from pactisim import env, ops, refmodel, seams as sm
 from pactisim.env import HarnessError
 
 G_TIMEOUT = 60.0
-PARSE_OPS = ("parse", "from_strings", "optimize", "get_variable_bounds", "read_file", "compound_from_strings", "compound_merge", "compound_le", "compound_misc", "compound_file", "compound_purity")
+PARSE_OPS = ("parse", "from_strings", "optimize", "get_variable_bounds", "read_file", "compound_from_strings", "compound_merge", "compound_le", "compound_misc", "compound_file", "compound_purity", "write_file_mixed")
 PROBE_STRINGS = ["2x + 3y <= 4", "1 <= 2(x + y) - z <= 7", "0.5 a + (1/2)b = -1", "3|x| + |x| - y <= 0"]
 
 ALLOWED_EXC = {
@@ -534,6 +534,13 @@ class Session:
                     self.violate(i, name, "E1c", {"what": "an unsatisfiable system reported as IncompatibleArgsError by a list-level relaxation", "exc": info}, "want=ValueError got=IncompatibleArgsError")
             if "E2" in O:
                 self.after_error(i, name, step, can)
+                if wfault is None and name != "compound_file" and self.seams.fs.files != files_before:
+                    # E2f: a call that raised (no file-system fault injected) must leave the stored files, which are what the
+                    # file operations operate on, as they were; compound_file is the harness's own write-then-read composite
+                    changed = sorted(k for k in set(files_before) | set(self.seams.fs.files) if files_before.get(k) != self.seams.fs.files.get(k))
+                    self.violate(i, name, "E2", {"what": "stored file changed by a call that raised", "files": changed, "exc": info,
+                                                 "sizes_before": {k: len(files_before.get(k, "")) for k in changed}, "sizes_after": {k: len(self.seams.fs.files.get(k, "")) for k in changed}},
+                                 "stored file changed by a failing call")
         if "E1b" in O and not fired1 and wfault is None:
             try:
                 want = refmodel.expected_class(name, can)
@@ -559,7 +566,7 @@ class Session:
 
         # ---- O3c: same call again, same arguments
         res2 = None
-        if "O3" in O and name not in ("write_file",) and out1[0] != "crash":
+        if "O3" in O and name not in ("write_file", "write_file_mixed") and out1[0] != "crash":
             live2, _can2, _cl2 = self.resolve(step["args"])
             if "O1" in O:
                 # arguments resolved from slots must still be canonically what they were
@@ -645,7 +652,7 @@ class Session:
             if h is not None and _outcome_key(out1) != h["outcome"]:
                 self.violate(i, name, "O3d", {"what": "the same call on canonically equal arguments, repeated %d steps later in the session, gave a different outcome" % (i - h["step_index"]),
                                               "earlier": _short(h["outcome"]), "now": _short(out1)}, "repeat-later")
-        if clean and name not in ("write_file", "read_file", "compound_file"):
+        if clean and name not in ("write_file", "read_file", "compound_file", "write_file_mixed"):
             self.history.append({"step_index": i, "step": step, "can": can, "outcome": _outcome_key(out1)})
 
         # ---- O5 bookkeeping
